@@ -43,10 +43,10 @@ Lemma doomed_step : forall s i s', INV s -> o_cl (s_o s) = true -> doomed (s_a s
 Proof.
   intros s i s' HI Hcl Hd j Hstep.
   destruct (Nat.eq_dec j i) as [->|Hn].
-  2:{ apply step_inv in Hstep. destruct Hstep as (o & k & og & ig & a' & _ & _ & ->).
+  2:{ apply step_inv in Hstep. destruct Hstep as (o & k & og & ig & a' & _ & _ & _ & ->).
       cbn. rewrite upd_other by congruence. exact Hd. }
   pose proof HI as [_ Ha]. destruct (Ha i) as [Hsafe Hchk].
-  apply step_inv in Hstep. destruct Hstep as (o & k & og & ig & a' & Hcode & Hex & ->).
+  apply step_inv in Hstep. destruct Hstep as (o & k & og & ig & a' & Hcode & Hgate & Hex & ->).
   cbn [s_a]. rewrite upd_same.
   destruct Hd as [[Hs Hr]|[Hc _]]; [|congruence].
   rewrite Hcode in Hs, Hsafe.
@@ -76,15 +76,15 @@ Qed.
 
 (* A transmit call of any family that has not started when the stream is
    closed: whatever happens afterwards, if it returns it returns the
-   output-closed error, and neither the connection nor the encoder buffer has
-   changed. *)
+   output-closed error, the encoder buffer has not changed and the connection
+   has received at most the closing tag that was still owed. *)
 Theorem transmit_after_close : forall ds ks tr1 s1 i k tr2 s2 e,
   run step (init ds ks) tr1 = Some s1 ->
   o_cl (s_o s1) = true ->
   is_transmit k = true -> a_code (s_a s1 i) = prog_of k -> a_e (s_a s1 i) = ENil -> a_res (s_a s1 i) = None ->
   run step s1 tr2 = Some s2 ->
   a_res (s_a s2 i) = Some e ->
-  e = EOutClosed /\ o_wire (s_o s2) = o_wire (s_o s1) /\ o_buf (s_o s2) = o_buf (s_o s1).
+  e = EOutClosed /\ o_buf (s_o s2) = o_buf (s_o s1) /\ tag_only (s_o s1) (s_o s2).
 Proof.
   intros ds ks tr1 s1 i k tr2 s2 e H1 Hcl Ht Hc He Hr H2 Hres.
   pose proof (INV_run ds ks tr1 s1 H1) as HI.
